@@ -928,6 +928,16 @@ impl<'a> Run<'a> {
                         (0, Operation::InsertTree(u.tkey(k), NewNode { data: vec![4, 5], children: vec![leaf(1), leaf(2)] })),
                         (0, Operation::InsertTree(u.tkey(k), NewNode { data: vec![6], children: (0..256).map(leaf).collect() })),
                     ],
+                    // a valid insertion followed by the dereference of a root that does not exist BEFORE the transaction:
+                    // the tree the transaction itself inserts, or another absent one
+                    "ins_then_deref" => vec![
+                        (0, Operation::InsertTree(u.tkey(k), NewNode { data: vec![4, 5], children: vec![leaf(1), leaf(2)] })),
+                        (0, Operation::DereferenceTree(u.tkey(k))),
+                    ],
+                    "ins_then_deref_absent" => vec![
+                        (0, Operation::InsertTree(u.tkey(k), NewNode { data: vec![4, 5], children: vec![leaf(1)] })),
+                        (0, Operation::DereferenceTree(u.tkey(97))),
+                    ],
                     _ => vec![
                         (0, Operation::InsertTree(u.tkey(k), NewNode { data: vec![4, 5], children: vec![leaf(1), leaf(2)] })),
                         (0, Operation::Set(u.tkey(k), vec![1])),
